@@ -565,7 +565,34 @@ pub fn run_c11(seed: u64, runno: u64, solver_bound: u32) -> Acc {
     let mut acc = Acc::new();
     let z = ZobristHasher::create_zobrist_hasher();
     // sources: generated small positions, the endgame seeds and terminal-adjacent walks
-    let root = match if rng.chance(1, 150) { 99 } else { rng.below(27) } {
+    let root = match if rng.chance(1, 150) { 99 } else if rng.chance(1, 8) { 98 } else { rng.below(27) } {
+        98 => {
+            // two or three heavy pieces against a bare king, strong side to move: the same
+            // positions recur at different plies of one shallow search by many move orders
+            // (whatever the search remembers about a position must not depend on the ply)
+            acc.count("c11_heavy_pieces_against_a_bare_king");
+            loop {
+                let mut p = Pos::empty();
+                let wk = rng.below(64) as u8;
+                let bk = rng.below(64) as u8;
+                if wk == bk || ((r::file_of(wk) - r::file_of(bk)).abs() <= 1 && (r::rank_of(wk) - r::rank_of(bk)).abs() <= 1) {
+                    continue;
+                }
+                p.sq[wk as usize] = r::KING;
+                p.sq[bk as usize] = r::KING | r::BLACK;
+                for _ in 0..2 + rng.below(2) {
+                    let s = rng.below(64) as u8;
+                    if p.sq[s as usize] == 0 {
+                        p.sq[s as usize] = *rng.pick(&[r::QUEEN, r::ROOK, r::ROOK, r::KNIGHT]);
+                    }
+                }
+                p.white_to_move = true;
+                if !p.is_legal_position() || p.is_terminal() {
+                    continue;
+                }
+                break if rng.chance(1, 2) { workload::mirror(&p) } else { p };
+            }
+        }
         99 => {
             // more than 128 legal moves and the mates in one come late in the move list
             acc.count("c11_heavy_material_positions");
